@@ -1679,11 +1679,18 @@ class SpaceUpdater(SharedSpaceOperations):
         if not nx.is_directed_acyclic_graph(self._graph):
             raise ValueError("cyclic inheritance")
 
-        self._graph.get_mro(node)  # Check if MRO is possible
+        mro = self._graph.get_mro(node)  # Check if MRO is possible
 
         # Check if MRO is possible for each node in sub graph
         for n in nx.descendants(self._graph, node):
             self._graph.get_mro(n)
+
+        # Check name conflict between cells and refs of the bases
+        members = [set().union(*[getattr(self._graph.to_space(b), attr).keys()
+                                 for b in mro[1:]])
+                   for attr in ("cells", "own_refs")]
+        if members[0] & members[1]:
+            raise NameError("name conflict: %s" % (members[0] & members[1]))
 
         if container is None:
             container = parent._named_spaces
